@@ -41,7 +41,7 @@ use crate::error::EpbdError;
 /// no EPB en algunos casos (p.e. residencial privado) y en ese caso no deben indicarse los consumos
 /// como ILU sino como NEPB
 #[allow(non_camel_case_types)]
-#[derive(Debug, Copy, Clone, PartialEq, Eq, Hash, Serialize, Deserialize)]
+#[derive(Debug, Copy, Clone, PartialEq, Eq, PartialOrd, Ord, Hash, Serialize, Deserialize)]
 pub enum Service {
     /// DHW
     ACS,
